@@ -3,8 +3,23 @@ import json
 from e2e import oracle as oraclemod
 
 
+def input_id(spec):
+    """Identity of one generated application: known findings recorded for one specific failing input carry it."""
+    import hashlib
+    return hashlib.sha256(json.dumps(spec, sort_keys=True).encode()).hexdigest()[:12]
+
+
 def evaluate_case(case, res):
-    """Returns (violations list, stats dict, status string)."""
+    """Returns (violations list, stats dict, status string). Every signature carries the identity of the input (`input`), so
+    that a finding can be recorded for exactly the application that fails (entries without that key match as before)."""
+    out, stats, status = _evaluate_case(case, res)
+    iid = input_id(case["spec"])
+    for v in out:
+        v["sig"]["input"] = iid
+    return out, stats, status
+
+
+def _evaluate_case(case, res):
     out = []
     st = res.get("stages", {})
     if res.get("verdict", "").startswith("inconclusive") or not st.get("app_build", {}).get("ok", False):
